@@ -25,6 +25,7 @@ func runC11(c *Ctx) {
 	R.Rule("views", "Len = len(forward); Get*/Contains* = one lookup in the matching map; Range walks forward and stops on false; Clear clears both", 7)
 	R.Rule("paired-insert", "forward[k]=v and reverse[v]=k always come together with the same k, v", 1)
 	R.Rule("paired-delete", "a delete in one map comes with the delete/overwrite of its partner in the other; the partner comes from a lookup known to have hit", 3)
+	R.Rule("remove-effective", "RemoveForward/RemoveReverse leave the maps untouched only where a lookup missed (or the partner found does not point back)", 2)
 	R.Rule("evict-stale", "Add decides both collisions on every path and evicts the stale reverse/forward entries before inserting", 1)
 	R.Rule("who-may-write", "only Add, RemoveForward, RemoveReverse and Clear write the maps; none of the methods returns them", 1)
 	R.Rule("clone-detached", "Clone returns fresh copies of both maps on every path", 2)
@@ -274,6 +275,8 @@ func runC11(c *Ctx) {
 		recv := paramOf(fi, 0)
 		delOK, delWhy := true, ""
 		nDel := 0
+		remOK, remWhy := true, ""
+		nRem := 0
 		// clearing loops: for k := range m { delete(m, k) } over the forward and over the reverse map
 		clearKey := map[string]bool{}
 		cleared := map[string]bool{}
@@ -321,6 +324,51 @@ func runC11(c *Ctx) {
 				}
 				if e.Kind == "store" && (isFieldAddr(e.Addr, fF, recv) || isFieldAddr(e.Addr, fR, recv)) {
 					writers[fi.Name] = true
+				}
+			}
+			// remove-effective: a removal that changes nothing has missed something - a lookup came back empty, or the
+			// partner it found does not point back
+			if strings.Contains(fi.Name, ").Remove") && p.End == EndReturn && len(dels) == 0 {
+				missed := false
+				for _, cd := range p.Conds {
+					t, pol := stripNot(cd.T, cd.Pol)
+					if !pol && t.Op == "extract" && t.N == 1 && (t.Args[0].Op == "lookup" || t.Args[0].Op == "call") {
+						missed = true
+					}
+					r := cd.Rel()
+					if r.B != nil && r.Op == "!=" {
+						for _, side := range [][2]*Term{{r.A, r.B}, {r.B, r.A}} {
+							if side[0].Op == "extract" && side[0].N == 0 && side[0].Args[0].Op == "lookup" && side[1].Op == "param" {
+								missed = true
+							}
+						}
+					}
+				}
+				if !missed {
+					remOK, remWhy = false, fmt.Sprintf("%s: a path (%s) returns without deleting although every lookup on it found what it looked for", fi.Name, p.CondString())
+				}
+				nRem++
+			} else if strings.Contains(fi.Name, ").Remove") && p.End == EndReturn {
+				nRem++
+				// ... and a removal that deletes has found its own argument in one of the maps first (comma-ok): a partner
+				// taken from a lookup that may have missed is the zero value, and the pair deleted is somebody else's
+				hit := false
+				arg := paramOf(fi, 1)
+				for _, cd := range p.Conds {
+					t, pol := stripNot(cd.T, cd.Pol)
+					if pol && t.Op == "extract" && t.N == 1 && t.Args[0].Op == "lookup" && len(t.Args[0].Args) == 2 && mapKind(p, recv, t.Args[0].Args[0]) != "" && t.Args[0].Args[1].Key() == arg.Key() {
+						hit = true
+					}
+					// or through the Get*/Contains* views of the same Bimap
+					if pol && t.Op == "extract" && t.N == 1 && t.Args[0].Op == "call" && strings.Contains(t.Args[0].Sym, "(*Bimap).Get") && len(t.Args[0].Args) == 2 && t.Args[0].Args[1].Key() == arg.Key() {
+						hit = true
+					}
+					if pol && t.Op == "call" && strings.Contains(t.Sym, "(*Bimap).Contains") && len(t.Args) == 2 && t.Args[1].Key() == arg.Key() {
+						hit = true
+					}
+				}
+				if !hit {
+					remOK, remWhy = false, fmt.Sprintf("%s: a path (%s) deletes without having found its own argument present", fi.Name, p.CondString())
 				}
 			}
 			// paired-insert
@@ -417,6 +465,12 @@ func runC11(c *Ctx) {
 				if !paired {
 					delOK, delWhy = false, fmt.Sprintf("delete(%s, %s) has no matching delete/overwrite of its partner in the other map on the same path (%s)", map[string]string{"F": "forward", "R": "reverse"}[d.kind], d.key, p.CondString())
 				}
+			}
+		}
+		if nRem > 0 {
+			o := R.Decide(remOK, "remove-effective", fi.Name, "rows", c.pos(fi), "a path without a delete has a lookup that missed (or a partner that does not point back)", remWhy)
+			if !remOK {
+				o.Breaks = "a pair that is present survives its removal"
 			}
 		}
 		if nDel > 0 {
